@@ -275,6 +275,9 @@ def run_shard(shard, tier):
     optidx = range(len(OPTSETS)) if tier == "thorough" else QUICK_OPTS
     for sp in allspecs:
         vals = atoms + I.directed_inputs(sp, k=3 if tier == "thorough" else 2)
+        if sp[0] == "g" and sp[1] in ("Dict", "Mapping"):
+            # a key whose text cannot be made (the digit limit of int -> str): routes and messages are built from keys
+            vals = vals + ["{10**5000: 1}", "{'k': 1, 10**5000: 'x'}"]
         if sp[0] == "dc":
             # an excess key / a field value that cannot be repr()'d or str()'d
             f0 = sp[2][0][0]
